@@ -39,6 +39,66 @@ print(json.dumps(out))
 """
 
 
+def server_specs(rep, tier):
+    """spec/ServerSpec.tla: normalize_server_spec as coded agrees with the meaning of every well-formed address spelling (TLC, all
+    strings up to MaxLen over the address alphabet); every string is then given to the real function and TLC judges the results
+    with the same rule (spec/ServerSpecRule.tla); a result that differs from the as-coded prediction on an ill-formed string is
+    MODEL-DRIFT."""
+    from pymemcache.client.base import normalize_server_spec
+    maxlen = 4 if tier == "quick" else 6
+    r = tlc.run("ServerSpec", cfg_text=f"SPECIFICATION Spec\nCONSTANTS\n  MaxLen = {maxlen}\nINVARIANT Agree\nINVARIANT Total\nCHECK_DEADLOCK FALSE\n",
+                workers=16, timeout=1800)
+    if r.error:
+        raise common.MachineryError(r.error)
+    if not r.ok:
+        rep.violation("C11/model/ServerSpec/" + ",".join(r.invariants_violated), "normalize_server_spec as coded disagrees with the meaning "
+                      "of a well-formed address", tlc.first_error_trace(r))
+    rows = r.json_lines("EXP")
+    if len(rows) < 1000:
+        raise common.MachineryError("vacuous export from ServerSpec: %d rows" % len(rows))
+    rep.add("states", r.distinct)
+    conc = {"h": "h", "d": "7", ":": ":", "[": "[", "]": "]", "/": "/"}
+    back = {v: k for k, v in conc.items()}
+
+    def abstract(x):
+        return [back.get(ch, "?") for ch in x]
+    evs, preds = [], []
+    for row in rows:
+        text = ("unix:" if row["unixp"] else "") + "".join(conc[c] for c in row["s"])
+        try:
+            out = normalize_server_spec(text)
+            if isinstance(out, tuple) and len(out) == 2 and isinstance(out[0], str):
+                port = ["D"] if out[1] == 11211 and not text.endswith(":11211") else abstract(str(out[1]))
+                res = ["tcp", abstract(out[0]), port]
+            elif isinstance(out, str):
+                res = ["unix", abstract(out)]
+            else:
+                res = ["other", [repr(out)[:30]]]
+        except ValueError:
+            res = ["ValueError"]
+        except Exception as e:   # noqa
+            res = ["other", [type(e).__name__]]
+        evs.append({"e": "norm", "unixp": row["unixp"], "s": row["s"], "res": res})
+        preds.append(row["norm"])
+    B = 500
+    tr = [{"h": {"maxrej": B + 1}, "ev": evs[i:i + B]} for i in range(0, len(evs), B)]
+    acc, rej, st, _ = tlc.validate_traces("ServerSpecTrace", tr, chunk=200)
+    rep.add("traces_validated_against_impl", len(evs))
+    rep.add("trace_states", st)
+    rep.set("server_address_spellings_checked", len(evs))
+    for ti, lst in sorted(rej.items()):
+        for pos, clauses in lst[:3]:
+            ev = evs[ti * B + pos - 1]
+            cl = ",".join(sorted(x.strip().strip('"') for x in clauses.strip("{}").split(",")))
+            rep.violation(f"C11/server-spec/{cl}/{'unix:' if ev['unixp'] else ''}{''.join(ev['s'])}",
+                          f"normalize_server_spec({('unix:' if ev['unixp'] else '') + ''.join(conc[c] for c in ev['s'])!r}) -> {ev['res']}: {cl}", ev)
+    rejected = {ti * B + pos - 1 for ti, lst in rej.items() for pos, _ in lst}
+    for i, (ev, pr) in enumerate(zip(evs, preds)):
+        if i not in rejected and ev["res"] != pr:
+            rep.model_drift("normalize_server_spec differs from the as-coded model on a string the contract does not constrain",
+                            {"s": ev["s"], "unixp": ev["unixp"], "res": ev["res"], "model": pr})
+
+
 def word(x):
     return [x >> 16, x & 0xFFFF]
 
@@ -266,6 +326,7 @@ CHECK_DEADLOCK FALSE
         ev.append({"e": "noop", "nodes": [ranks.setdefault(n, 100 + len(ranks)) for n in hc.hasher.nodes]})
     traces.append({"h": {}, "ev": ev, "what": ("refused-servers",)})
 
+    server_specs(rep, tier)
     for t in traces:
         t["h"] = {"maxrej": 5}
     acc, rej, st, _ = tlc.validate_traces("RendezvousTrace", [{"h": t["h"], "ev": t["ev"]} for t in traces], chunk=3000)
